@@ -61,7 +61,12 @@ func baseContainer(name string) *api.Container {
 				m[merge.Item{Kind: k.Name, Key: k.Keys[1]}] = origVal + 1
 			}
 		}
-		return items.BuildContainer("c0", m, nil)
+		c := items.BuildContainer("c0", m, nil)
+		// limits of the very types the adjustments request are already there
+		for i, k := range items.K("rlimit").Keys {
+			c.Rlimits = append(c.Rlimits, &api.POSIXRlimit{Type: k, Hard: uint64(origVal + i), Soft: uint64(origVal + i)})
+		}
+		return c
 	}
 	if name == "populated" {
 		l = map[string][]int{}
